@@ -6,6 +6,8 @@
  E3b with a good stream, every loop that looks at the next character consumes at least one character per
      iteration (case split over the characters the loop and its consumers distinguish; consumers summarised)
  R3  no process-terminating call is reachable from the reader/writer entry points beyond the frozen list
+ R4  a node that a function has handed to a container (the callee stores the parameter; fixed point over the call graph) is
+     not deleted by that function on any consistent path afterwards (path-sensitive over flag variables)
 """
 import json
 import os
@@ -25,7 +27,10 @@ EXPLANATION = (
     "site. (E3) each loop containing a consuming extraction is explored under two stuck-stream states (end of file; "
     "failbit without eofbit) with three-valued evaluation of its conditions: no cycle through the loop head may "
     "remain unless a compared counter advances. (R3) abort/exit/assert sites reachable from the entry points are "
-    "a frozen list. Not decided: heap lifetime, integer overflow, recursion depth, time proportional to input, "
+    "a frozen list. (R4) for every `delete` of a local pointer in the runtime libraries: on no path that is consistent in "
+    "its flag variables does the function first pass the pointer to a parameter that is stored (least fixed point of "
+    "'assigned to a member/element/global or passed on to a stored parameter', virtual calls expanded) and then delete it "
+    "without taking it back or re-assigning it. Not decided: heap lifetime beyond R4, integer overflow, recursion depth, time proportional to input, "
     "judy.c / sc_hash.cc internals (vendored containers with structural invariants).")
 
 ENTRIES = ["STEPfile::ReadExchangeFile", "STEPfile::AppendExchangeFile", "STEPfile::ReadWorkingFile",
@@ -119,6 +124,45 @@ def side_conditions(prog, res):
     res.floor("E2.side_condition", "STEPcomplex(std::string**) call sites", m, 1)
 
 
+def r4_handed_then_deleted(prog, res):
+    import handover
+    st = handover.stores(prog)
+    res.info["r4_storing_parameters"] = len(st)
+    nd = nf = 0
+    for f in prog.all_functions():
+        if f.component == "test" or f.component not in UNITS["components"]:
+            continue
+        dels, found, incomplete = handover.check_function(prog, st, f)
+        if not dels:
+            continue
+        nd += len(dels)
+        if incomplete:
+            res.broke("R4: %s" % incomplete)
+        handed_vars = set()
+        for c in f.calls():
+            for _, p_ in dels:
+                if handover.handover_of(prog, st, c, p_["d"]):
+                    handed_vars.add(p_["d"])
+        bad = {dl["i"]: (dl, hc, why) for dl, hc, why in found}
+        counters = {}
+        for dl, p_ in dels:
+            if p_["d"] not in handed_vars:
+                continue
+            nf += 1
+            base = "R4|%s|%s|delete %s" % (f.relfile(), f.name, p_["n"])
+            c0 = counters.get(base, 0)
+            counters[base] = c0 + 1
+            key = base if c0 == 0 else "%s#%d" % (base, c0)
+            b = bad.get(dl["i"])
+            res.add("R4.handed_over_not_deleted", key, f.where(dl), b is None,
+                    "`%s` is deleted only on paths on which it was not handed over (or was taken back / re-assigned)" % p_["n"] if b is None else
+                    "`%s` is passed to %s() at line %s (%s) and deleted afterwards on the same path: the owner keeps a dangling pointer"
+                    % (p_["n"], b[1].get("fn"), b[1]["l"], b[2]))
+    res.info["r4_delete_sites_of_locals"] = nd
+    res.floor("R4.handed_over_not_deleted", "delete sites of local pointers examined", nd, 35)
+    res.floor("R4.handed_over_not_deleted", "delete sites whose pointer is also handed over in the same function", nf, 2)
+
+
 def run(prog, res, tier):
     reachable, keys = memsafe.reach(prog, CFG)
     if len(keys) < 8:
@@ -133,3 +177,4 @@ def run(prog, res, tier):
     res.floor("E3b.progress", "look-ahead driven loops", n3b, 12)
     side_conditions(prog, res)
     memsafe.run_terminators(prog, res, CFG, reachable)
+    r4_handed_then_deleted(prog, res)
